@@ -57,23 +57,28 @@ def prepare(prog):
     def oneA(s):
         cnt.append(s)
         return len(cnt) == 1
-    out["A"] = extract_block(prog, q, "sim_track_arrivals", isA, oneA,
-                             ["new_pipelines", "tick_number", "outstanding_pipelines", "pipeline_arrivals_by_priority"], "None")
+    def attempt(key, *a):
+        try:
+            out[key] = extract_block(*a)
+        except KeyError as e:
+            out[key] = ("lost", str(e))      # that block's contract is then reported as unreachable on its own
+    attempt("A", prog, q, "sim_track_arrivals", isA, oneA,
+            ["new_pipelines", "tick_number", "outstanding_pipelines", "pipeline_arrivals_by_priority"], "None")
     # B: the counters   num_pipelines_created += ... up to (not including) the completion sweep
     isB = lambda s: isinstance(s, ast.AugAssign) and ast.unparse(s.target) == "num_pipelines_created"
     notC = lambda s: not (isinstance(s, ast.If) and ast.unparse(s.test) == "executor_results")
-    out["B"] = extract_block(prog, q, "sim_count", isB, notC,
-                             ["num_pipelines_created", "num_assignments", "num_suspenions", "num_failures", "failure_error_counts",
-                              "new_pipelines", "assignments", "suspensions", "executor_results"],
-                             "(num_pipelines_created, num_assignments, num_suspenions, num_failures)")
+    attempt("B", prog, q, "sim_count", isB, notC,
+            ["num_pipelines_created", "num_assignments", "num_suspenions", "num_failures", "failure_error_counts",
+             "new_pipelines", "assignments", "suspensions", "executor_results"],
+            "(num_pipelines_created, num_assignments, num_suspenions, num_failures)")
     # C: the completion sweep   if executor_results: for pipeline_id in list(outstanding_pipelines.keys()): ...
     isC = lambda s: isinstance(s, ast.If) and ast.unparse(s.test) == "executor_results"
     cntc = []
     def oneC(s):
         cntc.append(s)
         return len(cntc) == 1
-    out["C"] = extract_block(prog, q, "sim_sweep", isC, oneC,
-                             ["executor_results", "outstanding_pipelines", "pipeline_latencies_by_priority", "tick_number"], "None")
+    attempt("C", prog, q, "sim_sweep", isC, oneC,
+            ["executor_results", "outstanding_pipelines", "pipeline_latencies_by_priority", "tick_number"], "None")
     return out
 
 
